@@ -43,8 +43,32 @@ def judge(ctx, got, want, instance, where, detail=None, key=None):
         ctx.error(instance, where, repr(got)[:300])
         return False
     ok = same(got, want)
-    ctx.check(ok, instance, where, None if ok else (detail or {"got": repr(got)[:300], "expected": repr(want)[:300]}), key=key)
+    if not ok and detail is None:
+        detail = {"got": repr(got)[:300], "expected": repr(want)[:300]}
+        note = lossy_note(got)
+        if note:
+            detail["witness"] = note
+    ctx.check(ok, instance, where, None if ok else detail, key=key)
     return ok
+
+
+def lossy_note(v):
+    """a value that kept `x mod 2^k` / `x // 2^k` of a field whose range leaves [0, 2^k) (c04_sem._intop keeps the exact residue only then):
+    the smallest field value that is decoded wrongly"""
+    vals = list(v) if isinstance(v, tuple) else [v]
+    for x in vals:
+        if not is_rat(x):
+            continue
+        for a in x.n.atoms():
+            d = F.atom_desc(a)
+            if d[0] == "fn" and d[1] in ("mod", "floordiv"):
+                u = unfn(F.Rat(F.Poly.atom(a)))
+                if u and len(u[1]) == 2 and const_int(u[1][1]) is not None:
+                    m = const_int(u[1][1])
+                    return (f"the field `{u[1][0]!r}` takes values up to the row count of the layout but only {m.bit_length() - 1} bits of it are "
+                            f"{'kept by the mask' if d[1] == 'mod' else 'dropped by the shift'}: the value {m} decodes as "
+                            f"{0 if d[1] == 'mod' else 'one unit of the neighbouring field'}")
+    return None
 
 
 def truth_of(ev, v):
@@ -67,7 +91,7 @@ def first_regime(runs):
 
 
 def wfn(ctx, enc, layout):
-    return ctx.src.func(OP4, "OP4." + WRITERS[(enc, layout)])
+    return S.func_of(ctx, "OP4." + WRITERS[(enc, layout)])
 
 
 # ---------------------------------------------------------------------------------------------------------------------- R1
@@ -120,7 +144,7 @@ def r1_ascii_field(ctx):
             ok = d is not None and d.is_const() and d.const_value() >= 0
             seen_f1 = True
             ctx.check(ok, "_write_ascii_header: the announced field width `numlen` holds the widest value (negative, three-digit exponent: digits + 8 characters)",
-                      ctx.src.func(OP4, "OP4._write_ascii_header"),
+                      S.func_of(ctx, "OP4._write_ascii_header"),
                       None if ok else {"numlen": repr(numlen), "widest": repr(widest),
                                        "witness": "[[-1.5e-150, 2], [3, 4]] written with binary=False: the value takes numlen + 1 characters and fuses with its neighbour"},
                       key="C04-R1|OP4._write_ascii_header|numlen < digits + 8")
@@ -131,9 +155,9 @@ def r1_ascii_field(ctx):
         if not lr.block or lr.put is None:
             bad = lr.bads()
             if bad:
-                ctx.fail(f"_loadop4_ascii ({layout}): perline and numlen are parsed back from the announcement", ctx.src.func(OP4, "OP4._loadop4_ascii"), bad[0])
+                ctx.fail(f"_loadop4_ascii ({layout}): perline and numlen are parsed back from the announcement", S.func_of(ctx, "OP4._loadop4_ascii"), bad[0])
             else:
-                ctx.error(f"_loadop4_ascii ({layout}): block read / store call", ctx.src.func(OP4, "OP4._loadop4_ascii"))
+                ctx.error(f"_loadop4_ascii ({layout}): block read / store call", S.func_of(ctx, "OP4._loadop4_ascii"))
             continue
         blk = lr.block[0][1]
         got = (blk[2], blk[3], lr.put[1][5]) if len(blk) >= 4 and len(lr.put[1]) >= 6 else None
@@ -186,7 +210,7 @@ def r2_headers(ctx):
                 got = S.Bad(lr.bads()[0])
             judge(ctx, got, (S.ROWS, S.COLS, form, F.const(4 if run.cplx else 2)),
                   f"_loadop4_ascii <- {fn.name} ({run.regime()}): the loader slices the columns the writer fills: |rows|, cols, form and type are recovered",
-                  ctx.src.func(OP4, "OP4._loadop4_ascii"))
+                  S.func_of(ctx, "OP4._loadop4_ascii"))
             nm = lr.ret[0] if isinstance(lr.ret, tuple) and lr.ret else None
             try:
                 nmv = S.wrap(nm) if nm is not None else None
@@ -194,11 +218,11 @@ def r2_headers(ctx):
                 nmv = None
             ok = nmv is not None and nmv.depends_on("name") and not nmv.depends_on("ROWS") and not nmv.depends_on("form")
             if is_bad(nm):
-                ctx.fail(f"_loadop4_ascii <- {fn.name} ({run.regime()}): the name is read from the name field", ctx.src.func(OP4, "OP4._loadop4_ascii"), nm.why)
+                ctx.fail(f"_loadop4_ascii <- {fn.name} ({run.regime()}): the name is read from the name field", S.func_of(ctx, "OP4._loadop4_ascii"), nm.why)
             elif nm is None or is_unknown(nm):
-                ctx.error(f"_loadop4_ascii <- {fn.name} ({run.regime()}): the name is read from the name field", ctx.src.func(OP4, "OP4._loadop4_ascii"), repr(nm)[:200])
+                ctx.error(f"_loadop4_ascii <- {fn.name} ({run.regime()}): the name is read from the name field", S.func_of(ctx, "OP4._loadop4_ascii"), repr(nm)[:200])
             else:
-                ctx.check(ok, f"_loadop4_ascii <- {fn.name} ({run.regime()}): the name is read from the name field", ctx.src.func(OP4, "OP4._loadop4_ascii"),
+                ctx.check(ok, f"_loadop4_ascii <- {fn.name} ({run.regime()}): the name is read from the name field", S.func_of(ctx, "OP4._loadop4_ascii"),
                           None if ok else repr(nm)[:200])
     # ---- binary header
     for layout in LAYOUTS:
@@ -227,7 +251,7 @@ def r2_headers(ctx):
                 got = S.Bad(lr.bads()[0])
             judge(ctx, got, (S.ROWS, S.COLS, form, F.const(4 if run.cplx else 2)),
                   f"_loadop4_binary <- {fn.name} ({run.regime()}): the loader unpacks the record the writer packs: |rows|, cols, form and type are recovered",
-                  ctx.src.func(OP4, "OP4._loadop4_binary"))
+                  S.func_of(ctx, "OP4._loadop4_binary"))
             nm = lr.ret[0] if isinstance(lr.ret, tuple) and lr.ret else None
             try:
                 nmv = S.wrap(nm) if nm is not None else None
@@ -235,11 +259,11 @@ def r2_headers(ctx):
                 nmv = None
             ok = nmv is not None and nmv.depends_on("name") and not nmv.depends_on("ROWS")
             if is_bad(nm):
-                ctx.fail(f"_loadop4_binary <- {fn.name} ({run.regime()}): the name is the 8 bytes that follow", ctx.src.func(OP4, "OP4._loadop4_binary"), nm.why)
+                ctx.fail(f"_loadop4_binary <- {fn.name} ({run.regime()}): the name is the 8 bytes that follow", S.func_of(ctx, "OP4._loadop4_binary"), nm.why)
             elif nm is None or is_unknown(nm):
-                ctx.error(f"_loadop4_binary <- {fn.name} ({run.regime()}): the name is the 8 bytes that follow", ctx.src.func(OP4, "OP4._loadop4_binary"), repr(nm)[:200])
+                ctx.error(f"_loadop4_binary <- {fn.name} ({run.regime()}): the name is the 8 bytes that follow", S.func_of(ctx, "OP4._loadop4_binary"), repr(nm)[:200])
             else:
-                ctx.check(ok, f"_loadop4_binary <- {fn.name} ({run.regime()}): the name is the 8 bytes that follow", ctx.src.func(OP4, "OP4._loadop4_binary"),
+                ctx.check(ok, f"_loadop4_binary <- {fn.name} ({run.regime()}): the name is the 8 bytes that follow", S.func_of(ctx, "OP4._loadop4_binary"),
                           None if ok else repr(nm)[:200])
 
 
@@ -259,7 +283,7 @@ def r3_string_headers(ctx):
         for layout in LAYOUTS:
             fn = wfn(ctx, enc, layout)
             rdq = f"OP4._rd_{layout}_{enc}"
-            rdfn = ctx.src.func(OP4, rdq)
+            rdfn = S.func_of(ctx, rdq)
             for kind, cplx in SCEN:
                 tag = f"{fn.name} [{scen_txt(kind, cplx)}]"
                 run = first_regime(L.writer(enc, layout, kind, cplx))
@@ -472,7 +496,7 @@ def r3_string_headers(ctx):
                                   None if ok else {"test for a data column": repr(b)[:120], "test after the sentinel header": repr(a)[:120]})
                 ok = not lr.left and not bad
                 ctx.check(ok, f"{'_loadop4_' + enc} <- {tag}: the loader consumes exactly the records the writer emitted (column, string, record marks, sentinel)",
-                          ctx.src.func(OP4, "OP4._loadop4_" + enc), None if ok else {"not consumed": repr(lr.left)[:300], "misread": bad[:2]})
+                          S.func_of(ctx, "OP4._loadop4_" + enc), None if ok else {"not consumed": repr(lr.left)[:300], "misread": bad[:2]})
                 # the same round trip in every other regime of the row count (layout switch, header width): records consumed, row and column recovered
                 for other in L.writer(enc, layout, kind, cplx):
                     if other is run or other.raised:
@@ -488,11 +512,11 @@ def r3_string_headers(ctx):
                         first = v[k] - 1 if v and len(v) > k and is_rat(v[k]) else None
                     ok = not lo.left and not obad and lo.put is not None and first is not None and same(lo.put[1][1], first) and same(lo.put[1][2], other.col)
                     if not ok and not obad and (lo.put is None or first is None or any(is_unknown(x) and not is_bad(x) for x in lo.put[1][1:3])):
-                        ctx.error(f"{'_loadop4_' + enc} <- {tag}, {other.regime()}: store call of the reader", ctx.src.func(OP4, "OP4._loadop4_" + enc),
+                        ctx.error(f"{'_loadop4_' + enc} <- {tag}, {other.regime()}: store call of the reader", S.func_of(ctx, "OP4._loadop4_" + enc),
                                   repr([ast.unparse(getattr(n, "test", n))[:50] for n, _v, _q in lo.W.undecided[:3]]))
                         continue
                     ctx.check(ok, f"{'_loadop4_' + enc} <- {tag}, {other.regime()}: the loader selects the reader of the layout that was written, consumes exactly "
-                                  "the records emitted and recovers first row and column", ctx.src.func(OP4, "OP4._loadop4_" + enc),
+                                  "the records emitted and recovers first row and column", S.func_of(ctx, "OP4._loadop4_" + enc),
                               None if ok else {"not consumed": repr(lo.left)[:200], "misread": obad[:2], "store": repr(lo.put[1][1:3])[:200] if lo.put else None})
 
 
@@ -652,7 +676,7 @@ def r4_ranges_and_dispatch(ctx):
     ok = run is not None and run.strhdr is not None and len(run.strhdr.ints) == 1 and len(run.strhdr.txt.fields()) == 1
     ctx.check(ok, "_write_ascii_nonbigmat: IS is written alone on its line and parsed with int(line)", wfn(ctx, "ascii", "nonbigmat"), nontrivial=False)
     # dimension limits: a dimension that does not fit its header field is refused before anything is written
-    gi = ctx.src.func(OP4, "OP4._get_header_info")
+    gi = S.func_of(ctx, "OP4._get_header_info")
     for enc, rmax, cmax in (("ascii", 99999999, 99999998), ("binary", 2147483647, 2147483647)):
         res = {}
         for label, rows, cols in (("rows at the limit", (rmax, rmax), (1, 1)), ("rows above the limit", (rmax + 1, rmax + 1), (1, 1)),
@@ -675,7 +699,7 @@ def r4_ranges_and_dispatch(ctx):
 def r7_input_canonical(ctx):
     L = lab(ctx)
     # ---- _ensure_2d_dp, sparse arm
-    fn = ctx.src.func(OP4, "_ensure_2d_dp")
+    fn = S.func_of(ctx, "_ensure_2d_dp")
     W = S.World(ctx)
     W.opaque |= S.OPAQUE
     W.value_oracle = S.std_oracle("sparse", False, {"issparse": True})
@@ -701,7 +725,7 @@ def r7_input_canonical(ctx):
         ok = same(ret[0], F.sym("m"))
         ctx.check(ok, "_ensure_2d_dp: the tuple carries the matrix itself first (its shape sizes the header)", ev.returns[-1][1], nontrivial=False)
     # ---- _ensure_dp
-    dp = ctx.src.func(OP4, "_ensure_dp")
+    dp = S.func_of(ctx, "_ensure_dp")
     for cplx in (True, False):
         for already in (True, False):
             target = "np.complex128" if cplx else "np.float64"
@@ -738,7 +762,7 @@ def r7_input_canonical(ctx):
                               f"{'complex128' if cplx else 'float64'} -> {'returned as is (or converted again)' if already else 'converted to ' + target.split('.')[1]}", dp,
                           None if ok else repr(ret)[:200])
     # ---- _get_header_info: type and multiplier
-    gi = ctx.src.func(OP4, "OP4._get_header_info")
+    gi = S.func_of(ctx, "OP4._get_header_info")
     for cplx in (True, False):
         W = S.base_world(ctx, L.state, "ndarray", cplx, rows=(1, 100), split_rows=False)
         ev = S.run_method(W, "OP4._get_header_info", {"matrix": W.matrix, "form": F.sym("form"), "is_ascii": S.FALSE})
@@ -747,7 +771,7 @@ def r7_input_canonical(ctx):
         judge(ctx, got, (F.const(4 if cplx else 2), F.const(2 if cplx else 1)),
               f"_get_header_info: {'type 4 / two doubles per entry for complex' if cplx else 'type 2 / one double per entry for real'} input", gi)
     # ---- write dispatch: every named layout maps to its writer, for both encodings
-    wr = ctx.src.func(OP4, "OP4.write")
+    wr = S.func_of(ctx, "OP4.write")
     for enc in ENCS:
         for layout in LAYOUTS:
             target = WRITERS[(enc, layout)]
@@ -809,75 +833,329 @@ def triplet_source(src, W):
 
 
 # ---------------------------------------------------------------------------------------------------------------------- R8
-def r8_symmetry_test(ctx):
-    """_is_symmetric (sparse arm) decides form 6 by pairing every lower-triangle entry (r, c, v) with the upper-triangle entry (c, r, v').  The test
-    must therefore be invariant under transposition: swapping the roles of the row and column vectors must map each left-hand side of its
-    comparisons onto the right-hand side - including the two sort orders that line the triangles up.  Decided on values (names irrelevant)."""
-    fn = ctx.src.func(OP4, "OP4._is_symmetric")
-    W = S.World(ctx)
-    W.opaque |= S.OPAQUE - {"_is_symmetric"}
+NP_RTOL, NP_ATOL = 1e-5, 1e-8          # numpy's defaults for allclose / isclose
+ABS_FN = ("abs", "call:abs", "call:np.abs", "call:np.absolute", "call:np.fabs")
+REDUCE_MAX = ("call:.max", "call:np.max", "call:np.amax", "call:max", "call:np.nanmax")
+REDUCE_NORM = ("call:np.linalg.norm", "call:sp.linalg.norm", "call:scipy.sparse.linalg.norm", "call:spla.norm", "call:la.norm", "call:norm")
+REDUCE_SUM = ("call:sum", "call:np.sum", "call:.sum")
 
-    def oracle(v, ev):
-        u = unfn(v)
-        if not u:
-            return None
-        if u[0] == "call:isinstance" and len(u[1]) == 2:
-            ux = unfn(u[1][0])
-            if sym_name(u[1][1]) == "tuple":
-                return bool(ux and ux[0] == "tuple")
-        if u[0] in ("cmp:Eq", "cmp:NotEq") and len(u[1]) == 2:
-            # the two triangles hold the same number of entries on the path that reaches the element-wise test
-            a, b = u[1]
-            ua, ub = unfn(a), unfn(b)
-            if ua and ub and ua[0] == ub[0] and ua[0].startswith("call:") and len(ua[1]) == len(ub[1]) == 1:
-                return u[0] == "cmp:Eq"
+
+def _fnum(v):
+    """float of a constant value, else None"""
+    if is_rat(v) and v.is_const():
+        return float(v.const_value())
+    return None
+
+
+def _strip_abs(v):
+    u = unfn(v) if is_rat(v) else None
+    if u and u[0] in ABS_FN and len(u[1]) == 1:
+        return u[1][0], True
+    return v, False
+
+
+def _reduction(v):
+    """reduce(abs(X)) -> (kind of reduction, X) for a reduction over a whole array"""
+    u = unfn(v) if is_rat(v) else None
+    if not u or not u[1]:
         return None
-    W.value_oracle = oracle
-    m = (F.sym("m0"), F.sym("r"), F.sym("c"), F.sym("v"))
-    ev = S.run_func(W, fn, [m], "OP4._is_symmetric")
-    ret = ev.returns[-1][0] if ev.returns else None
-    rnode = ev.returns[-1][1] if ev.returns else fn
-    if ret is None or is_unknown(ret) or isinstance(ret, tuple) or not is_rat(ret):
-        ctx.error("_is_symmetric: returned test", fn, repr(ret)[:300])
-        return
-    pairs = []
+    if u[0] in REDUCE_MAX or u[0] in REDUCE_NORM or u[0] in REDUCE_SUM:
+        x, _ = _strip_abs(u[1][0])
+        return ("max" if u[0] in REDUCE_MAX else "norm" if u[0] in REDUCE_NORM else "sum"), x
+    return None
 
-    def walk(v):
-        u = unfn(v)
-        if u is None:
-            return False
-        name, args = u
-        if name.startswith("bool:And"):
-            return all(walk(a) for a in args)
-        if name in ("call:np.all", "call:all") and len(args) >= 1:
-            return walk(args[0])
-        if name == "cmp:Eq" and len(args) == 2:
-            pairs.append(("==", args[0], args[1]))
-            return True
-        if name in ("call:np.allclose", "call:np.array_equal", "call:np.isclose") and len(args) >= 2:
-            pairs.append((name[5:], args[0], args[1]))
-            return True
+
+def _call_tols(args):
+    """(a, b, rtol, atol) of np.allclose / np.isclose arguments (positional or keyword); None when a tolerance is not a constant"""
+    pos, kw = [], {}
+    for x in args:
+        u = unfn(x)
+        if u and u[0].startswith("kw:") and len(u[1]) == 1:
+            kw[u[0][3:]] = u[1][0]
+        else:
+            pos.append(x)
+    if len(pos) < 2 or len(pos) > 4 or set(kw) - {"rtol", "atol", "equal_nan"}:
+        return None
+    rtol = pos[2] if len(pos) > 2 else kw.get("rtol")
+    atol = pos[3] if len(pos) > 3 else kw.get("atol")
+    rt = NP_RTOL if rtol is None else _fnum(rtol)
+    at = NP_ATOL if atol is None else _fnum(atol)
+    if rt is None or at is None:
+        return None
+    return pos[0], pos[1], rt, at
+
+
+def _affine_tol(rhs):
+    """rhs = atol + rtol * R with R one atom (or no R): (atol, rtol, R value or None); None when it has another shape"""
+    if not is_rat(rhs) or not rhs.d.is_const():
+        return None
+    sc = 1 / rhs.d.const_value()
+    atol, rtol, ref = 0.0, 0.0, None
+    for m, c in rhs.n.t.items():
+        if m == ():
+            atol = float(c * sc)
+        elif len(m) == 1 and m[0][1] == 1 and ref is None:
+            rtol, ref = float(c * sc), F.Rat(F.Poly.atom(m[0][0]))
+        else:
+            return None
+    return atol, rtol, ref
+
+
+def closeness_atoms(v, out):
+    """a test that is a conjunction of element-wise comparisons of two arrays -> out: list of dict(kind, a, b, rtol, atol, ref)
+      kind 'exact'  : a == b for every element (np.all(a == b), np.array_equal)
+      kind 'elem'   : |a - b| <= atol + rtol * |b| element by element (np.allclose / np.isclose / the inequality spelled out)
+      kind 'global' : reduce|a - b| <= atol + rtol * reduce|ref|: the tolerance is taken from a reduction over a whole array
+    False when a part of the test is none of these"""
+    u = unfn(v) if is_rat(v) else None
+    if u is None:
         return False
+    name, args = u
+    if name == "bool:And":
+        return all(closeness_atoms(x, out) for x in args)
+    if name in ("call:np.all", "call:all", "call:bool") and len(args) == 1:
+        return closeness_atoms(args[0], out)
+    if name == "cmp:Eq" and len(args) == 2:
+        out.append(dict(kind="exact", a=args[0], b=args[1], rtol=0.0, atol=0.0, ref=None))
+        return True
+    if name == "call:np.array_equal" and len(args) == 2:
+        out.append(dict(kind="exact", a=args[0], b=args[1], rtol=0.0, atol=0.0, ref=None))
+        return True
+    if name in ("call:np.allclose", "call:np.isclose"):
+        t = _call_tols(args)
+        if t is None:
+            return False
+        out.append(dict(kind="elem", a=t[0], b=t[1], rtol=t[2], atol=t[3], ref=t[1]))
+        return True
+    if name in ("cmp:LtE", "cmp:Lt", "cmp:GtE", "cmp:Gt") and len(args) == 2:
+        lhs, rhs = (args[0], args[1]) if name in ("cmp:LtE", "cmp:Lt") else (args[1], args[0])
+        tol = _affine_tol(rhs)
+        if tol is None:
+            return False
+        atol, rtol, ref = tol
+        red = _reduction(lhs)
+        diff, isabs = (red[1], True) if red is not None else _strip_abs(lhs)
+        if not isabs or not is_rat(diff):
+            return False
+        # the two arrays compared: the positive and the negative part of the difference
+        pos_ = F.Rat(F.Poly({m: c for m, c in diff.n.t.items() if c > 0})) / diff.d
+        neg_ = F.Rat(F.Poly({m: -c for m, c in diff.n.t.items() if c < 0})) / diff.d
+        if pos_.is_zero() or neg_.is_zero():
+            return False
+        if ref is None:
+            out.append(dict(kind="global" if red is not None else "elem", a=pos_, b=neg_, rtol=0.0, atol=atol, ref=None))
+            return True
+        rr = _reduction(ref)
+        if rr is not None:
+            out.append(dict(kind="global", a=pos_, b=neg_, rtol=rtol, atol=atol, ref=rr[1], reduce=rr[0]))
+            return True
+        if red is None:
+            x, ab = _strip_abs(ref)
+            if ab and is_rat(x) and (x.equals(pos_) or x.equals(neg_)):
+                out.append(dict(kind="elem", a=pos_, b=neg_, rtol=rtol, atol=atol, ref=x))
+                return True
+        return False
+    return False
 
-    if not walk(ret) or len(pairs) < 3:
-        ctx.error("_is_symmetric: the sparse test is a conjunction of element-wise comparisons", rnode, repr(ret)[:300])
-        return
+
+def _mirror_pair(a, b, root):
+    """are the two arrays a matrix X (any value built from the symbol `root`) and its transpose?  -> 'mirror' / 'same' (X against X: the test is
+    vacuous) / 'conj' (X against its conjugate transpose: a Hermitian test) / None (not recognised)"""
+    if not (is_rat(a) and is_rat(b)) or not (a.depends_on(root) and b.depends_on(root)):
+        return None
+    if a.equals(b):
+        return "same"
+    for x, y in ((a, b), (b, a)):
+        u = unfn(x)
+        if u and u[0] == "call:.transpose" and len(u[1]) == 1:
+            if u[1][0].equals(y):
+                return "mirror"
+            for w, z in ((u[1][0], y), (y, u[1][0])):
+                uw = unfn(w)
+                if uw and uw[0] in ("call:.conj", "call:.conjugate", "call:np.conj", "call:np.conjugate") and len(uw[1]) == 1 and uw[1][0].equals(z):
+                    return "conj"
+        if u and u[0] in ("attr:H", "call:.getH") and len(u[1]) == 1 and u[1][0].equals(y):
+            return "conj"
+    return None
+
+
+def _mirror_check(ctx, d, root, who, rnode):
+    """obligation: the arm compares the matrix with its own transpose.  Returns False when the rule cannot go on"""
+    kind = _mirror_pair(d["a"], d["b"], root)
+    if kind is None:
+        ctx.error(f"_is_symmetric ({who} input): the matrix is compared with its own transpose", rnode, {"a": repr(d["a"])[:200], "b": repr(d["b"])[:200]})
+        return False
+    why = {"same": "the matrix is compared with itself: every square matrix is called symmetric (form 6)",
+           "conj": "the matrix is compared with its conjugate transpose: a Hermitian, not a symmetric matrix gets form 6"}.get(kind)
+    ctx.check(kind == "mirror", f"_is_symmetric ({who} input): the matrix is compared with its own transpose", rnode, why,
+              key=f"C04-R8|_is_symmetric|{who} arm does not compare with the transpose")
+    if d["ref"] is not None and d["kind"] == "global" and not d["ref"].depends_on(root):
+        ctx.error(f"_is_symmetric ({who} input): reference magnitude of the tolerance", rnode, repr(d["ref"])[:200])
+        return False
+    return True
+
+
+def _is_symmetric_runs(ctx):
+    """_is_symmetric evaluated for the (matrix, rows, cols, values) tuple of a scipy-sparse input and for an ndarray: returned tests and early returns"""
+    fn = S.func_of(ctx, "OP4._is_symmetric")
+    out = {}
+    for kind in ("sparse", "dense"):
+        W = S.World(ctx)
+        W.opaque |= S.OPAQUE - {"_is_symmetric"}
+
+        def oracle(v, ev):
+            u = unfn(v)
+            if not u:
+                return None
+            if u[0] == "call:isinstance" and len(u[1]) == 2:
+                ux = unfn(u[1][0])
+                tn = sym_name(u[1][1])
+                if tn == "tuple":
+                    return bool(ux and ux[0] == "tuple")
+                if tn in ("np.ndarray", "numpy.ndarray"):
+                    return not (ux and ux[0] == "tuple")
+            if u[0] in ("call:sp.issparse", "call:scipy.sparse.issparse") and len(u[1]) == 1:
+                return False          # neither the tuple nor the ndarray is a scipy matrix
+            if u[0] in ("cmp:Eq", "cmp:NotEq") and len(u[1]) == 2:
+                # the two triangles hold the same number of entries on the path that reaches the element-wise test
+                a, b = u[1]
+                ua, ub = unfn(a), unfn(b)
+                if ua and ub and ua[0] == ub[0] and ua[0].startswith("call:") and len(ua[1]) == len(ub[1]) == 1 and not a.equals(b):
+                    return u[0] == "cmp:Eq"
+            return None
+        W.value_oracle = oracle
+        arg = (F.sym("m0"), F.sym("r"), F.sym("c"), F.sym("v")) if kind == "sparse" else F.sym("M")
+        ev = S.run_func(W, fn, [arg], "OP4._is_symmetric")
+        ret = ev.returns[-1][0] if ev.returns else None
+        rnode = ev.returns[-1][1] if ev.returns else fn
+        out[kind] = (ret, rnode, list(ev.alts), W)
+    return fn, out
+
+
+def _rule_text(d):
+    if d["kind"] == "exact":
+        return "exact equality"
+    if d["kind"] == "elem":
+        return f"|a_ij - a_ji| <= {d['atol']:g} + {d['rtol']:g} * |a_ji| for every pair"
+    ref = f"{d.get('reduce', 'max')} over the whole matrix" if d["ref"] is not None else "nothing"
+    return f"max|a_ij - a_ji| <= {d['atol']:g} + {d['rtol']:g} * ({ref})"
+
+
+def _sparse_rule(ctx, ret, rnode):
+    """one way out of the sparse arm (a returned test) -> the closeness rule it applies to the values of a pair of mirror entries (None when
+    the rule cannot go on: the reason has been recorded).  Emits the mirror-symmetry obligations of that test."""
+    atoms = []
+    if ret is None or is_unknown(ret) or isinstance(ret, tuple) or not is_rat(ret) or not closeness_atoms(ret, atoms) or not atoms:
+        ctx.error("_is_symmetric (sparse input): the test is a conjunction of element-wise comparisons", rnode, repr(ret)[:300])
+        return None
     R, C = F.sym("r"), F.sym("c")
-    for kind, a, b in pairs:
-        at = a.subs({"r": F.sym("__t")}).subs({"c": R}).subs({"__t": C})      # transposition: r <-> c
-        ok = at.equals(b)
-        ctx.check(ok, "_is_symmetric: each compared pair is mirror-symmetric - transposing (rows <-> columns) the lower-triangle side gives exactly the "
-                      "upper-triangle side, sort order included", rnode,
-                  None if ok else {"left": repr(a)[:300], "left transposed": repr(at)[:300], "right": repr(b)[:300]},
-                  key=f"C04-R8|_is_symmetric|{kind} pair not mirror-symmetric")
-    kinds = set()
-    for kind, a, b in pairs:
-        u = unfn(a)
-        if u and u[0] == "idx":
-            base = unfn(u[1][0])
-            if base and base[0] == "idx":
-                kinds.add(repr(base[1][0]))
-    ctx.check(kinds == {"r", "c", "v"}, "_is_symmetric: rows, columns and values of the two triangles are all compared", rnode, sorted(kinds))
+    triplet = [d for d in atoms if any(is_rat(d[k]) and (d[k].depends_on("r") or d[k].depends_on("c") or d[k].depends_on("v")) for k in ("a", "b"))]
+    whole = [d for d in atoms if d not in triplet]
+    if triplet and not whole:
+        # ---- (1) mirror symmetry of the compared pairs
+        if len(triplet) < 3:
+            ctx.error("_is_symmetric: rows, columns and values of the two triangles are compared", rnode, repr(ret)[:300])
+            return None
+        for d in triplet:
+            a, b = d["a"], d["b"]
+            at = a.subs({"r": F.sym("__t")}).subs({"c": R}).subs({"__t": C})      # transposition: r <-> c
+            ok = at.equals(b)
+            knd = "==" if d["kind"] == "exact" else "np.allclose"
+            ctx.check(ok, "_is_symmetric: each compared pair is mirror-symmetric - transposing (rows <-> columns) the lower-triangle side gives exactly the "
+                          "upper-triangle side, sort order included", rnode,
+                      None if ok else {"left": repr(a)[:300], "left transposed": repr(at)[:300], "right": repr(b)[:300]},
+                      key=f"C04-R8|_is_symmetric|{knd} pair not mirror-symmetric")
+        kinds = {}
+        for d in triplet:
+            u = unfn(d["a"])
+            if u and u[0] == "idx":
+                base = unfn(u[1][0])
+                if base and base[0] == "idx":
+                    kinds[repr(base[1][0])] = d
+        ctx.check(set(kinds) == {"r", "c", "v"}, "_is_symmetric: rows, columns and values of the two triangles are all compared", rnode, sorted(kinds))
+        for nm in ("r", "c"):
+            d = kinds.get(nm)
+            if d is not None and d["kind"] != "exact":
+                ctx.check(False, "_is_symmetric: the positions of the two triangles are compared exactly", rnode, _rule_text(d))
+        if kinds.get("v") is None:
+            ctx.error("_is_symmetric (sparse input): comparison of the values of the two triangles", rnode, repr(ret)[:300])
+        return kinds.get("v")
+    if whole and not triplet and len(whole) == 1:
+        # ---- (1') the matrix against its own transpose: the pairs are lined up by the transposition itself
+        if not _mirror_check(ctx, whole[0], "m0", "sparse", rnode):
+            return None
+        return whole[0]
+    ctx.error("_is_symmetric (sparse input): either the (row, col, value) triplets of the two triangles or the matrix and its transpose are compared", rnode,
+              repr(ret)[:300])
+    return None
+
+
+def r8_symmetry_test(ctx):
+    """_is_symmetric decides form 6 when no form is given.  (1) Sparse arm on (r, c, v) triplets: every lower-triangle entry (r, c, v) is paired with
+    the upper-triangle entry (c, r, v'), so the test must be invariant under transposition: swapping the roles of the row and column vectors
+    maps each left-hand side of its comparisons onto the right-hand side - including the two sort orders that line the triangles up.
+    (2) Sibling agreement: the same matrix handed over as an ndarray or as a scipy-sparse matrix must get the same form, so the closeness rule
+    applied to a pair of mirror entries is the same in both arms: same kind (exact / element-wise tolerance / tolerance taken from a reduction
+    over the whole matrix) and the same tolerances.  All decided on values (names and spelling irrelevant)."""
+    fn, runs = _is_symmetric_runs(ctx)
+    # every way out of an arm: the final return and the early returns under tests the evaluation could not decide
+    tests, consts = {}, {}
+    for arm in ("sparse", "dense"):
+        ret, rnode, alts, _W = runs[arm]
+        vals = [ret] + [a for a, _p in alts]
+        consts[arm] = [v for v in vals if is_rat(v) and sym_name(v) in ("True", "False")]
+        tests[arm] = [v for v in vals if not (is_rat(v) and sym_name(v) in ("True", "False"))]
+        if not tests[arm]:
+            ctx.error(f"_is_symmetric ({arm} input): returned test", fn, repr(vals)[:300])
+            return
+    rnode, rnoded = runs["sparse"][1], runs["dense"][1]
+    # ---- the ndarray arm: one comparison of the matrix with its transpose
+    atoms = []
+    retd = tests["dense"][0]
+    if len(tests["dense"]) != 1 or is_unknown(retd) or not is_rat(retd) or not closeness_atoms(retd, atoms) or len(atoms) != 1:
+        ctx.error("_is_symmetric (ndarray input): one comparison of the matrix with its own transpose", rnoded, repr(tests["dense"])[:300])
+        return
+    vd = atoms[0]
+    if not _mirror_check(ctx, vd, "M", "ndarray", rnoded):
+        return
+    # ---- the sparse arm, one rule per way out
+    rules = []
+    for v in tests["sparse"]:
+        d = _sparse_rule(ctx, v, rnode)
+        if d is None:
+            return
+        rules.append(d)
+    for vals_s in rules:
+        same_kind = vals_s["kind"] == vd["kind"] and (vals_s["kind"] != "global" or vals_s.get("reduce", "max") == vd.get("reduce", "max"))
+        same_tol = abs(vals_s["rtol"] - vd["rtol"]) <= 1e-12 * max(abs(vd["rtol"]), 1e-300) and abs(vals_s["atol"] - vd["atol"]) <= 1e-12 * max(abs(vd["atol"]), 1e-300)
+        # constant early returns under tests the rule does not interpret (`if d.nnz == 0: return True`): an early `return True` only adds matrices
+        # that are called symmetric, so it cannot repair a sparse arm that is looser than its sibling (the witness below keeps its verdicts);
+        # anything else is left undecided
+        if consts["sparse"] or consts["dense"]:
+            looser = vals_s["kind"] == "global" and vd["kind"] == "elem" and vals_s["rtol"] > 0 and vd["rtol"] < 0.5 and len(rules) == 1 \
+                and all(sym_name(a) == "True" for a in consts["sparse"]) and not consts["dense"]
+            if not looser:
+                ctx.error("_is_symmetric: early returns the rule cannot relate to the element-wise test", fn, repr(consts)[:200])
+                return
+        witness = None
+        if not same_kind:
+            if {vals_s["kind"], vd["kind"]} == {"elem", "global"}:
+                g = vals_s if vals_s["kind"] == "global" else vd
+                who = "scipy-sparse" if g is vals_s else "ndarray"
+                witness = (f"[[1e9, 1], [2, 1e9]]: the pair (1, 2) differs by 1 > {min(vals_s['atol'], vd['atol']):g} + {min(vals_s['rtol'], vd['rtol']):g} * 2 "
+                           f"(unsymmetric, form 1) but 1 <= {g['atol']:g} + {g['rtol']:g} * 1e9: the same matrix gets form 6 as {who} input - a tolerance "
+                           "relative to a reduction over the whole matrix is not an element-wise symmetry test")
+            elif "exact" in (vals_s["kind"], vd["kind"]):
+                witness = "[[1, 2], [2 + 1e-9, 1]]: symmetric for the arm with a tolerance, unsymmetric for the exact arm"
+        elif not same_tol:
+            witness = "a pair of mirror entries whose difference lies between the two tolerances gets form 6 for one input type and form 1 for the other"
+        ctx.check(same_kind, "_is_symmetric: ndarray and scipy-sparse input apply the same kind of closeness rule to a pair of mirror entries (the same matrix "
+                             "gets the same form whatever its container)", rnode,
+                  None if same_kind else {"sparse input": _rule_text(vals_s), "ndarray input": _rule_text(vd), "witness": witness},
+                  key="C04-R8|_is_symmetric|closeness rule differs between ndarray and sparse input")
+        ctx.check(same_tol, "_is_symmetric: ndarray and scipy-sparse input use the same tolerances", rnode,
+                  None if same_tol else {"sparse input": _rule_text(vals_s), "ndarray input": _rule_text(vd), "witness": witness},
+                  key="C04-R8|_is_symmetric|tolerances differ between ndarray and sparse input")
 
 
 # ---------------------------------------------------------------------------------------------------------------------- R9
@@ -887,7 +1165,9 @@ def r9_no_byte_reinterpretation(ctx):
     round trips, `.byteswap`/`.newbyteorder` without the matching dtype change) on its way into the matrix: a native-dtype view of
     byte-swapped data yields garbage of the right shape.  Who-may rule over every function reachable from the binary loader; expected count 0."""
     mod = ctx.src.mod(OP4)
-    meth = {q.split(".", 1)[1]: f for q, f in mod.funcs.items() if q.startswith("OP4.") and q.count(".") == 1}
+    meth = {}
+    for c in reversed(S.class_chain(mod, "OP4")):
+        meth.update({q.split(".", 1)[1]: f for q, f in mod.funcs.items() if q.startswith(c + ".") and q.count(".") == 1})
     free = {q: f for q, f in mod.funcs.items() if "." not in q and "#" not in q}
     seen, work = set(), ["_loadop4_binary"]
     table = dict(free)
